@@ -43,6 +43,9 @@
 (*                           records, record sequence numbers included, so *)
 (*                           a peer with an anti-replay window discards     *)
 (*                           every retransmitted record it has seen before  *)
+(*   SkeShareBeforeVerify    the ECDHE share of a ServerKeyExchange is kept  *)
+(*                           even if its signature does not verify, and the *)
+(*                           message is skipped instead of failing          *)
 (*   FingerprintAnyInChain   the expected fingerprint is accepted if ANY     *)
 (*                           entry of the Certificate message has it, while *)
 (*                           the key is taken from the first entry          *)
@@ -198,6 +201,7 @@ RecvSKE(s, m) ==
   ELSE IF s.peerCert = "-" \/ s.cr = "-" \/ s.sr = "-" THEN Fail(s)
   ELSE IF m.sigBy = s.peerCert /\ m.sigCr \in {s.cr, "*"} /\ m.sigSr \in {s.sr, "*"} /\ m.sigDh = m.dh
        THEN Res([s EXCEPT !.skeOk = TRUE, !.peerDh = m.dh], <<>>)
+       ELSE IF Dev("SkeShareBeforeVerify") THEN Res([s EXCEPT !.peerDh = m.dh], <<>>)   \* share kept, message skipped
        ELSE Fail(s)
 
 RecvCR(s, m) == Res([s EXCEPT !.crSeen = TRUE], <<>>)
